@@ -585,6 +585,10 @@ class WebSocketResponse(StreamResponse, Generic[_DecodeText]):
                     if msg.type is WSMsgType.CLOSE:
                         self._set_code_close_transport(msg.data)
                         return True
+                    if msg.type is WSMsgType.PING:
+                        # No CLOSE received yet: a PING is still answered
+                        # (RFC 6455 5.5.2), the peer's heartbeat depends on it.
+                        await self.pong(msg.data)
         except asyncio.CancelledError:
             self._set_code_close_transport(WSCloseCode.ABNORMAL_CLOSURE)
             raise
